@@ -243,7 +243,8 @@ sint8 espconn_secure_sent(struct espconn *c, uint8 *p, uint16 len) {
 static sint8 do_connect(struct espconn *c) {
   sdk_last_conn = c;
   sdk_conn_open = 1;
-  sdk_disc_pending = 0;
+  if (sdk_disc_pending != 2) sdk_disc_pending = 0;   /* (the close of an established connection is still to be reported: the new
+                                                        connection is not established before that) */
   if (c && c->proto.tcp)
     sdk_out("CONNECT %u.%u.%u.%u:%d", c->proto.tcp->remote_ip[0],
             c->proto.tcp->remote_ip[1], c->proto.tcp->remote_ip[2],
@@ -258,7 +259,8 @@ static sint8 do_disconnect(struct espconn *c) {
   sdk_out("DISCONNECT");
   /* an established connection is closed; a connect that is still in progress is not cancelled (the SDK
      reports ESPCONN_ARG and the attempt completes) unless a driver opts in */
-  if (sdk_conn_open) sdk_disc_pending = 1;
+  if (sdk_conn_open == 2) sdk_disc_pending = 2;             /* an established connection is closing */
+  else if (sdk_conn_open && !sdk_disc_pending) sdk_disc_pending = 1;
   if (sdk_conn_open != 1 || !sdk_sent_requires_open) sdk_conn_open = 0;
   if (sdk_disconnect_calls_cb && c && c->proto.tcp &&
       c->proto.tcp->disconnect_callback)
